@@ -78,7 +78,9 @@ theorem set_ttl_exact {pp : PP} (P : PlainObj pp) (sec : Section) (hs : sec.isRe
       setRrTtl pp c ttl = .ok pp' ∧
       P'.lst sec = ps1 ++ ((encLabels owner ++ [0]) ++ (f8.take 4 ++ put32 ttl) ++ put16 rd.length ++ rd) :: ps2 ∧
       (∀ s, s ≠ sec → P'.lst s = P.lst s) ∧ P'.qls = P.qls ∧ P'.q4 = P.q4 ∧ P'.hdr = P.hdr ∧
-      pp' = { pp with packet := pp'.packet } := P.set_ttl sec hs hsplit c hr hoff hne h41 ttl
+      pp' = { pp with packet := pp'.packet } := by
+  obtain ⟨o, f, r, pp', P', a1, a2, a3, a4, a5, a6, a7, a8, a9, _⟩ := P.set_ttl sec hs hsplit c hr hoff hne h41 ttl
+  exact ⟨o, f, r, pp', P', a1, a2, a3, a4, a5, a6, a7, a8, a9⟩
 
 /-- **set_rr_ip** with an address of the record's family -/
 theorem set_ip_exact {pp : PP} (P : PlainObj pp) (sec : Section) (hs : sec.isRec = true) {ps1 ps2 : List Bytes} {rc : Bytes}
@@ -91,7 +93,9 @@ theorem set_ip_exact {pp : PP} (P : PlainObj pp) (sec : Section) (hs : sec.isRec
       setRrIp pp c ip = .ok (pp', none) ∧
       P'.lst sec = ps1 ++ ((encLabels owner ++ [0]) ++ f8 ++ put16 rd.length ++ ip) :: ps2 ∧
       (∀ s, s ≠ sec → P'.lst s = P.lst s) ∧ P'.qls = P.qls ∧ P'.q4 = P.q4 ∧ P'.hdr = P.hdr ∧
-      pp' = { pp with packet := pp'.packet } := P.set_ip sec hs hsplit c hr hoff hne ip hfam
+      pp' = { pp with packet := pp'.packet } := by
+  obtain ⟨o, f, r, pp', P', a1, a2, a3, a4, a5, a6, a7, a8, a9, a10, _⟩ := P.set_ip sec hs hsplit c hr hoff hne ip hfam
+  exact ⟨o, f, r, pp', P', a1, a2, a3, a4, a5, a6, a7, a8, a9, a10⟩
 
 /-- **set_raw_name** with a well-formed pointer-free name -/
 theorem set_name_exact {pp : PP} (P : PlainObj pp) (sec : Section) (hs : sec.isRec = true) {ps1 ps2 : List Bytes} {rc : Bytes}
@@ -109,8 +113,10 @@ theorem set_name_exact {pp : PP} (P : PlainObj pp) (sec : Section) (hs : sec.isR
       P'.lst sec = ps1 ++ ((encLabels owner' ++ [0]) ++ f8 ++ put16 rd.length ++ rd) :: ps2 ∧
       (∀ s, s ≠ sec → P'.lst s = P.lst s) ∧ P'.qls = P.qls ∧ P'.q4 = P.q4 ∧ P'.hdr = P.hdr ∧
       pp'.cached = none ∧ pp'.ednsCount = pp.ednsCount ∧ pp'.extRcode = pp.extRcode ∧ pp'.ednsVersion = pp.ednsVersion ∧
-      pp'.extFlags = pp.extFlags ∧ pp'.maxPayload = pp.maxPayload :=
-  P.set_name sec hs hsplit c hr hoff hnext hne hsec h41 owner' hgo' hsize
+      pp'.extFlags = pp.extFlags ∧ pp'.maxPayload = pp.maxPayload := by
+  obtain ⟨o, f, r, pp', P', a1, a2, a3, a4, a5, a6, a7, a8, a9, a10, a11, a12, a13, _⟩ :=
+    P.set_name sec hs hsplit c hr hoff hnext hne hsec h41 owner' hgo' hsize
+  exact ⟨o, f, r, pp', P', a1, a2, a3, a4, a5, a6, a7, a8, a9, a10, a11, a12, a13⟩
 
 /-- **header setters** (`set_tid`, `set_flags`, `set_response`, `set_opcode`, `set_rcode`: each changes
 bytes 0–3 only, C12): the records, the question and the counts are untouched -/
